@@ -86,6 +86,25 @@ def random_scenarios(chk, n, pid="C01"):
         CC.check_font_pictures(chk, font, cfg, srcs, glyphs, tol, f"random scenario {k} [{flavour}]", replay, deltas=deltas)
 
 
+def transform_fill_grid(chk):
+    """user transform kinds (skew, rotation, non-uniform scale, affine, translation, mirror) x gradient kinds, compiled to
+    COLRv1 (the user transform is folded into outlines and gradient geometry)."""
+    for k, (label, t, glyphs) in enumerate(S.transform_fill_grid()):
+        flavour = CC.FLAVOURS[k % len(CC.FLAVOURS)]
+        cfgkw = dict(color_format=flavour, keep_glyph_names=True, reuse_tolerance=0.1, clip_to_viewbox=False, transform=t)
+        cfg = build.base_config(**cfgkw)
+        srcs = CC.sources_from(glyphs)
+        replay = {"kind": "transform-x-fill", "label": label, "config": {a: str(b) for a, b in cfgkw.items()}, "svgs": [x.svg_text for x in srcs]}
+        chk.case(key=("grid", label), nontrivial=True)
+        chk.traces_validated += 1
+        try:
+            _, font = build.build(cfg, srcs, already_pico=True)
+        except Exception as e:
+            chk.violation(f"valid source fails to compile with user transform {t} ({flavour}): {type(e).__name__}: {str(e)[:200]}", replay)
+            continue
+        CC.check_font_pictures(chk, font, cfg, srcs, glyphs, 0.1, f"grid [{label}] [{flavour}]", replay, deltas=CC.layer_deltas(glyphs, cfg, 0.1))
+
+
 def coincidence_scenarios(chk, n, pid="C01", only=None):
     """Integer-lattice axis-aligned copies (scale exactly 1 on one axis, integer scale centres) and thin-bar overflow
     fallbacks: coincidences random floats never hit."""
@@ -189,6 +208,7 @@ def run(chk):
     replay_model_scenarios(chk, recs, 90 if quick else 2500)
     random_scenarios(chk, 60 if quick else 2500)
     coincidence_scenarios(chk, 60 if quick else 2000)
+    transform_fill_grid(chk)
     corpus(chk)
     radial_overflow_finding(chk)
     compile_trace.run(chk, 30 if quick else 400)
